@@ -502,6 +502,7 @@ func (fc *FuncCtx) defaultCall(st *State, fn *types.Func, recv *Val, args []Val,
 		nm = nm + "$" + strings.Join(sig, ".") + ">" + sortTag(s)
 		r := App(nm, s, ts...)
 		st.assume(fc.typeFacts(r, t))
+		fc.assumeTypeInv(st, r, t)
 		return Val{T: r, Typ: t}
 	}
 	if resT == nil {
@@ -629,7 +630,12 @@ func (fc *FuncCtx) applyContract(st *State, fn *types.Func, c *FuncContract, rec
 		}
 		g := fc.evalSpecBool(st, rq.Expr, sc)
 		_, k := funcKeyOf(fn)
-		fc.emit(st, "pre@"+k, "precondition of callee", g, pos, rq.Text)
+		if fc.contract != nil && fc.contract.Opts["trustpre"] == "on" {
+			// this function's contract does not claim panic freedom: callee preconditions are assumed, not proved
+			fc.note("callee precondition assumed (opt trustpre): " + k + ": " + rq.Text)
+		} else {
+			fc.emit(st, "pre@"+k, "precondition of callee", g, pos, rq.Text)
+		}
 		st.assume(g)
 	}
 	old := st.clone()
@@ -668,6 +674,7 @@ func (fc *FuncCtx) applyContract(st *State, fn *types.Func, c *FuncContract, rec
 			t = fc.freshConst("r_"+fn.Name(), s)
 		}
 		st.assume(fc.typeFacts(t, rt))
+		fc.assumeTypeInv(st, t, rt)
 		v := Val{T: t, Typ: rt}
 		results = append(results, v)
 		nm := rv.Name()
